@@ -1,7 +1,6 @@
 """C08 — TLS transport is a transparent, encrypted byte stream."""
 from __future__ import annotations
 
-import ast
 import asyncio
 import os
 import random
@@ -47,29 +46,9 @@ ASSUMPTIONS = [
     "the wrapped transport's send_all delivers all bytes in order; recv_into returns a non-empty prefix of what is in flight",
 ]
 
-# ------------------------------------------------------------------ params(): fail-closed ast translator
-
-def _fail(msg):
-    raise runner.TranslateError(msg)
-
-
-def _find(tree, qualname):
-    node = tree
-    for part in qualname.split("."):
-        nxt = None
-        for ch in ast.iter_child_nodes(node):
-            if isinstance(ch, (ast.FunctionDef, ast.AsyncFunctionDef, ast.ClassDef)) and ch.name == part:
-                nxt = ch
-        if nxt is None:
-            _fail(f"{qualname} not found in tls.py")
-        node = nxt
-    return node
-
-
-def _is_await_readinto(stmt):
-    return (isinstance(stmt, ast.Expr) and isinstance(stmt.value, ast.Await) and isinstance(stmt.value.value, ast.Call)
-            and isinstance(stmt.value.value.func, ast.Attribute) and stmt.value.value.func.attr == "readinto")
-
+# ------------------------------------------------------------------ params(): harness/tlsparams.py
+# The three switches of the pump model (f_recheck, f_skiplock, f_close_flush) are obtained by a reader of the source
+# (tolerant to harmless refactorings) AND by behavioural probes on the real transport; see harness/tlsparams.py.
 
 def _refresh_c09_params():
     """coq/Run/C08.v uses the blocking model of Conc/TlsEof.v, which reads Gen/ParamsC09.v: keep it in step."""
@@ -90,91 +69,13 @@ def params():
 
 
 def params_text():
-    """Does the WANT_READ branch re-check, once it holds the recv lock, whether another task fed the SSL object in the
-    meantime (meta/fixes/C08_lost_wakeup.diff)?  Recognises exactly the unpatched and the patched shape."""
-    path = os.path.join(runner.REPO, _TLS)
-    try:
-        tree = ast.parse(open(path).read())
-    except SyntaxError as exc:
-        _fail(f"tls.py: {exc}")
-    fn = _find(tree, "AsyncTLSStreamTransport._retry_ssl_method")
-    loops = [s_ for s_ in fn.body if isinstance(s_, ast.While)]
-    if len(loops) != 1:
-        _fail("_retry_ssl_method: expected one while loop")
-    tries = [s_ for s_ in loops[0].body if isinstance(s_, ast.Try)]
-    if len(tries) != 1:
-        _fail("_retry_ssl_method: expected one try statement in the loop")
-    wr = [h for h in tries[0].handlers if "SSLWantReadError" in ast.unparse(h.type)]
-    if len(wr) != 1 or len(wr[0].body) != 1 or not isinstance(wr[0].body[0], ast.Try):
-        _fail("_retry_ssl_method: WANT_READ handler not recognised")
-    inner = wr[0].body[0]
-    recv_blocks = [s_ for s_ in inner.body if isinstance(s_, ast.AsyncWith) and "recv_lock" in ast.unparse(s_.items[0].context_expr)]
-    if len(recv_blocks) != 1:
-        _fail("_retry_ssl_method: expected exactly one `async with` on the recv lock in the WANT_READ branch")
-    body = recv_blocks[0].body
-    reader = _find(tree, "_IncomingDataReader.readinto")
-    counts = [n for n in ast.walk(reader) if isinstance(n, ast.AugAssign) and isinstance(n.target, ast.Attribute)
-              and n.target.attr == "feed_count"]
-    if len(body) == 1 and _is_await_readinto(body[0]):
-        if counts or "feed_count" in ast.unparse(fn):
-            _fail("feed_count is maintained but the recv-lock block does not use it")
-        flag = "false"
-    elif (len(body) == 1 and isinstance(body[0], ast.If) and not body[0].orelse and len(body[0].body) == 1
-          and _is_await_readinto(body[0].body[0])):
-        test = ast.unparse(body[0].test)
-        if test != "self.__incoming_reader.feed_count == feed_count":
-            _fail(f"recv-lock guard not recognised: {test}")
-        snaps = [s_ for s_ in inner.body if isinstance(s_, ast.Assign) and ast.unparse(s_) == "feed_count = self.__incoming_reader.feed_count"]
-        if len(snaps) != 1 or inner.body[0] is not snaps[0]:
-            _fail("the feed_count snapshot must be the first statement of the WANT_READ branch (no await before it)")
-        # readinto: the counter is incremented exactly once, unconditionally, after the await and before the BIO write
-        top = reader.body
-        if not (len(counts) == 1 and counts[0] in top and ast.unparse(counts[0]) == "self.feed_count += 1"
-                and top.index(counts[0]) == 1 and "await" in ast.unparse(top[0])
-                and not any("await" in ast.unparse(s_) for s_ in top[1:])):
-            _fail("_IncomingDataReader.readinto: feed_count update not recognised")
-        flag = "true"
-    else:
-        _fail(f"recv-lock block not recognised: {ast.unparse(recv_blocks[0])!r}")
+    import tlsparams
+    return tlsparams.c08_text()
 
-    # send lock: taken always (unpatched) or only if the outgoing BIO has pending bytes (C08_send_lock_only_if_pending.diff)
-    def flush_shape(stmts, where):
-        plain = "async with self.__transport_send_lock:\n    if self._write_bio.pending:\n        await self._transport.send_all(self._write_bio.read())"
-        found = []
-        for st in stmts:
-            txt = ast.unparse(st)
-            if txt == plain:
-                found.append("false")
-            elif (isinstance(st, ast.If) and not st.orelse and ast.unparse(st.test) == "self._write_bio.pending"
-                  and len(st.body) == 1 and ast.unparse(st.body[0]) == plain):
-                found.append("true")
-            elif "send_lock" in txt:
-                _fail(f"{where}: flush block not recognised: {txt!r}")
-        if len(found) != 1:
-            _fail(f"{where}: expected exactly one flush block")
-        return found[0]
 
-    skip_wr = flush_shape(inner.body, "WANT_READ branch")
-    skip_ok = flush_shape(tries[0].orelse, "success branch")
-    if skip_wr != skip_ok:
-        _fail("the WANT_READ branch and the success branch disagree on when the send lock is taken")
-    # aclose(): does it still send what unwrap() left in the outgoing BIO when unwrap() failed with an SSLError?
-    acl = _find(tree, "AsyncTLSStreamTransport.aclose")
-    utries = [n for n in ast.walk(acl) if isinstance(n, ast.Try) and len(n.body) == 1 and "unwrap" in ast.unparse(n.body[0])]
-    if len(utries) != 1:
-        _fail("aclose: the try statement around unwrap() was not found")
-    hs = utries[0].handlers
-    late = ("if self._write_bio.pending:\n    with contextlib.suppress(OSError):\n        async with self.__transport_send_lock:\n"
-            "            if self._write_bio.pending:\n                await self._transport.send_all(self._write_bio.read())")
-    if len(hs) == 1 and ast.unparse(hs[0].type) == "OSError" and ast.unparse(hs[0].body[0]) == "pass":
-        close_flush = "false"
-    elif (len(hs) == 2 and ast.unparse(hs[0].type).endswith("SSLError") and len(hs[0].body) == 1
-          and ast.unparse(hs[0].body[0]) == late and ast.unparse(hs[1].type) == "OSError" and ast.unparse(hs[1].body[0]) == "pass"):
-        close_flush = "true"
-    else:
-        _fail("aclose: handlers of the try statement around unwrap() not recognised")
-    return ("From EN Require Import Conc.TlsPump.\n"
-            f"Definition tls_flags : flags := {{| f_recheck := {flag}; f_skiplock := {skip_wr}; f_close_flush := {close_flush} |}}.\n")
+def extra(ctx):
+    import tlsparams
+    return dict(parameters_obtained_by=tlsparams.provenance(("f_recheck", "f_skiplock", "f_close_flush", "f_lazyread")))
 
 
 MARKER = b"<<PLAINTEXT-MARKER-C08>>"
@@ -342,12 +243,12 @@ def _events_to_trace(events, results):
 
 
 def current_flag():
-    """State of the two fixes in the tree under test: f_recheck + 2 * f_skiplock."""
+    """State of the fixes in the tree under test: f_recheck + 2 * f_skiplock + 4 * f_lazyread."""
     try:
         t = params_text()
     except runner.TranslateError:
         return -1                # shape not recognised (the check reports that separately): no recorded state applies
-    return int("f_recheck := true" in t) + 2 * int("f_skiplock := true" in t)
+    return int("f_recheck := true" in t) + 2 * int("f_skiplock := true" in t) + 4 * int("f_lazyread := true" in t)
 
 
 def run_two_readers(cfg):
@@ -610,6 +511,17 @@ def _sc_cancel_sweep(params):
     return dict(frag=frag, recv_yields=1), script
 
 
+def _sc_cancel_read_pending_bio(params):
+    """a recv() whose bytes are already decrypted in the SSL object is issued while a send_all is parked by back-pressure
+    (holding the send lock) and a second send_all queues behind it (its records are pending in the outgoing BIO); the
+    recv() is cancelled at its k-th resumption (k = 0: not cancelled).  Whatever k, the completed recv() calls must
+    return the peer's bytes without a hole.  params = [k]"""
+    k = params[0]
+    return dict(), [("peer_write", 30), ("recv", "r0", 5), ("join", "r0"), ("gate", 0), ("send", "w1", [40]), ("steps", 6),
+                    ("send", "w2", [50]), ("steps", 6), ("recv_cancel", "r1", 5, k), ("steps", 6), ("gate", 1),
+                    ("join", "w1"), ("join", "w2"), ("join", "r1"), ("drain", 30)]
+
+
 def _sc_two_writers(params):
     """two tasks call send_all concurrently over a wrapped transport whose send_all is NOT atomic (pieces + yields).
     params = [piece, yields, n1, n2, size...]"""
@@ -631,15 +543,20 @@ def _sc_big_write(params):
 SCENARIOS["cancel-sweep"] = _sc_cancel_sweep
 SCENARIOS["two-writers"] = _sc_two_writers
 SCENARIOS["big-write"] = _sc_big_write
+SCENARIOS["cancel-read-pending-bio"] = _sc_cancel_read_pending_bio
 
 # codes are part of recorded corpus inputs: never renumber, only append
 SCENARIO_CODES = {"echo": 0, "echo-2": 1, "abandoned-send": 2, "backpressure-read": 3, "cancel-after-read": 4,
-                  "second-send-behind-parked-send": 5, "cancel-sweep": 6, "two-writers": 7, "big-write": 8}
+                  "second-send-behind-parked-send": 5, "cancel-sweep": 6, "two-writers": 7, "big-write": 8,
+                  "cancel-read-pending-bio": 9}
 assert set(SCENARIO_CODES) == set(SCENARIOS)
 SCENARIO_NAMES = {v: k for k, v in SCENARIO_CODES.items()}
 # scenarios that fail on a tree without the corresponding fix: reported through the corpus / known_findings only
 KNOWN_SCENARIO_SIGNATURES = {"backpressure-read": "reader-queues-on-send-lock-with-nothing-to-flush",
-                             "cancel-after-read": "cancelled-recv-loses-decrypted-plaintext"}
+                             "cancel-after-read": "cancelled-recv-loses-decrypted-plaintext",
+                             "cancel-read-pending-bio": "cancelled-recv-loses-plaintext-behind-pending-ciphertext"}
+# the bit of current_flag() that makes the scenario pass
+SCENARIO_FIX_BIT = {"backpressure-read": 2, "cancel-after-read": 2, "cancel-read-pending-bio": 4}
 
 
 def run_scenario(cfg):
@@ -769,6 +686,11 @@ def run_scenario(cfg):
                     info["stuck"].append(cmd[1])
         info["events_end"] = len(rec.events)
         info["wpending"] = t._write_bio.pending
+        # calls still pending here (a recv() waiting for bytes that will never come) are cancelled by the tear-down below:
+        # that is not part of the recorded trace
+        info["results_end"] = {k_: list(v) for k_, v in info["results"].items()}
+        info["locks_end"] = [int(bool(getattr(t, "_AsyncTLSStreamTransport__transport_" + w + "_lock").locked()))
+                             for w in ("send", "recv")]
         info["peer_got"] = bytes(peer.plain_in)
         info["nsteps"] = {k_: v.nsteps for k_, v in tasks.items() if isinstance(v, K.CountingTask)}
         for x in tasks.values():
@@ -786,7 +708,7 @@ def run_scenario(cfg):
     except detloop.DeadlockError:
         info["deadlock"] = True
     events = rec.events[: info.get("events_end", len(rec.events))]
-    labels, obs, results = _events_to_trace(events, info["results"])
+    labels, obs, results = _events_to_trace(events, info.get("results_end", info["results"]))
     problems = []
     if info["deadlock"]:
         problems.append("deadlock: the event loop would block forever")
@@ -798,6 +720,15 @@ def run_scenario(cfg):
         if got != bytes(peer_plain)[: len(got)]:
             problems.append("plaintext already decrypted by a recv() was lost when that recv() was cancelled while queueing on "
                             "the send lock (nothing to flush): the next recv() skips it")
+        elif info["stuck"]:
+            problems.append(f"stuck: {info['stuck']} did not complete")
+    elif name == "cancel-read-pending-bio":
+        got = b"".join(info["recvd"][k_] for k_ in info["order"] if k_ in info["recvd"])
+        if got != bytes(peer_plain)[: len(got)] or (not info["stuck"] and got != bytes(peer_plain)):
+            problems.append("plaintext already decrypted by a recv() was lost behind pending ciphertext: the recv() was cancelled "
+                            "while it queued on the send lock to flush the records of ANOTHER send_all (itself queued behind a "
+                            f"send_all parked by back-pressure); the completed recv() calls returned {len(got)} of the "
+                            f"{len(peer_plain)} bytes the peer wrote, with a hole")
         elif info["stuck"]:
             problems.append(f"stuck: {info['stuck']} did not complete")
     elif name == "cancel-sweep":
@@ -843,7 +774,7 @@ def run_scenario(cfg):
     if MARKER in bytes(rec.cipher_out):
         problems.append("plaintext marker found in the bytes handed to the wrapped transport (sent unencrypted)")
     info.update(problems=problems, events=events)
-    return dict(labels=labels, out=[obs, results, info.get("wpending", 0), 0, 0], info=info)
+    return dict(labels=labels, out=[obs, results, info.get("wpending", 0)] + info.get("locks_end", [0, 0]), info=info)
 
 
 def current_state():
@@ -1008,7 +939,7 @@ def cases(tier, rng, escalate):
 
 def scenario_fixed(name):
     """Has the tree under test the fix that makes this (formerly failing) scenario pass?"""
-    return current_flag() >= 0 and bool(current_flag() & 2)
+    return current_flag() >= 0 and bool(current_flag() & SCENARIO_FIX_BIT.get(name, 0))
 
 
 def _gen_param_scenarios(thorough, rng):
@@ -1033,6 +964,12 @@ def _gen_param_scenarios(thorough, rng):
             n1 = len(sizes) // 2
             c, _i = one("two-writers", ver, client, [piece, yields, n1, len(sizes) - n1] + sizes, ["non-atomic-send_all"])
             yield c
+        if scenario_fixed("cancel-read-pending-bio"):      # (otherwise: known finding, witnesses in corpus/C08)
+            _c, info = one("cancel-read-pending-bio", ver, client, [0], ["no-cancel"])
+            yield _c
+            for k in range(1, max(info["nsteps"].values(), default=1) + 1):
+                c, _i = one("cancel-read-pending-bio", ver, client, [k], ["cancel-at-suspension-point", "pending-ciphertext"])
+                yield c
         for size, echo in ([(270000, 0), (270000, 1)] if not thorough else [(262143, 0), (262145, 0), (270000, 0), (270000, 1), (600000, 0), (600000, 1)]):
             c, _i = one("big-write", ver, client, [size, echo], ["above-256KiB", "request-reply" if echo else "pure-send"])
             yield c
@@ -1146,6 +1083,8 @@ def signature(inp, failure):
         return "lost-wakeup-after-recv-lock"
     if failure.startswith("recv() could not return data already in flight"):
         return KNOWN_SCENARIO_SIGNATURES["backpressure-read"]
+    if failure.startswith("plaintext already decrypted by a recv() was lost behind pending ciphertext"):
+        return KNOWN_SCENARIO_SIGNATURES["cancel-read-pending-bio"]
     if failure.startswith("plaintext already decrypted by a recv() was lost"):
         return KNOWN_SCENARIO_SIGNATURES["cancel-after-read"]
     return failure.split(":")[0][:60]
